@@ -605,8 +605,9 @@ CO_ERR COSdoInitDownloadBlock(CO_SDO *srv)
         }
         if (result != CO_ERR_NONE) {
             srv->Node->Error = CO_ERR_SDO_WRITE;
+            srv->Blk.State   = BLK_IDLE;
             COSdoAbort(srv, CO_SDO_ERR_TOS);
-            return (result);
+            return (CO_ERR_SDO_ABORT);
         }
         result = CO_ERR_NONE;
     }
